@@ -929,6 +929,16 @@ class PGPMessage(Armorable, PGPObject):
             return self._message
 
     @property
+    def cleartext_signed_text(self):
+        """
+        The text of a cleartext message as it is signed: RFC 4880 section 7.1 excludes trailing whitespace
+        at the end of every line from the signature (the line endings themselves are canonicalized when hashing).
+        """
+        if self.type != 'cleartext':
+            return None
+        return re.sub(r'[ \t\r]+(?=\n|\Z)', '', self.message)
+
+    @property
     def signatures(self):
         """A ``set`` containing all key ids (if any) which have signed this message."""
         return list(self._signatures)
@@ -2049,8 +2059,10 @@ class PGPKey(Armorable, ParentRef, PGPObject):
         if isinstance(subject, PGPMessage):
             if subject.type == 'cleartext':
                 sig_type = SignatureType.CanonicalDocument
+                subject = subject.cleartext_signed_text
 
-            subject = subject.message
+            else:
+                subject = subject.message
 
         sig = PGPSignature.new(sig_type, self.key_algorithm, hash_algo, self.fingerprint.keyid, created=prefs.pop('created', None))
 
@@ -2441,7 +2453,7 @@ class PGPKey(Armorable, ParentRef, PGPObject):
         if signature is None:
             if isinstance(subject, PGPMessage):
                 for sig in _filter_sigs(subject.signatures):
-                    sspairs.append((sig, subject.message))
+                    sspairs.append((sig, subject.cleartext_signed_text if subject.type == 'cleartext' else subject.message))
 
             if isinstance(subject, (PGPUID, PGPKey)):
                 sspairs += [ (sig, subject) for sig in _filter_sigs(subject.__sig__) ]
